@@ -16,6 +16,7 @@ from pySDC.implementations.sweeper_classes.generic_implicit import generic_impli
 from pySDC.implementations.sweeper_classes.explicit import explicit
 
 PID = 'C10'
+BOUNDS = {'quick': dict(node_pairs='(2,2) (3,2) (2,1)', levels='2..3', sweepers='implicit explicit', prolongation='values, values+rhs'), 'thorough': dict(node_pairs='+ (3,3) (4,2) (3,1) (5,3)', levels='2..3', middle_level_sweeps='<=2')}
 F = sp.UFProb.F
 
 
